@@ -4,6 +4,7 @@
 -/
 import Acra.Lemmas.Float
 import Acra.Model.ExtraTime
+import Acra.Lemmas.Ch11TimeFmt
 namespace Acra.Lemmas.ExtraTime
 open Acra.Py Acra.Py.Float Acra.Lemmas.Float Acra.Model.ExtraTime
 
@@ -265,5 +266,60 @@ theorem okIs_iff [DecidableEq α] (r : R α) (v : α) : okIs r v = true ↔ r = 
 
 theorem errIs_iff (r : R α) (e : Err) : errIs r e = true ↔ r = .error e := by
   cases r <;> simp [errIs]
+
+/-! ### timefromptp on words whose time lies in 1970 … 2099 -/
+section
+open Acra.Model.Ch11Pay.TimeFmt Acra.Lemmas.Ch11TimeFmt Acra.Lemmas.Ch11Calendar
+
+def dateOfSeconds (n : Nat) : Date :=
+  ((civilFromDays (n / 86400 + EPOCH)).1, (civilFromDays (n / 86400 + EPOCH)).2.1,
+    (civilFromDays (n / 86400 + EPOCH)).2.2, n % 86400 / 3600, n % 86400 / 60 % 60, n % 86400 % 60)
+
+theorem in_range (n : Nat) (h : n < 4102444800) : n < 86400 * DAYS := by unfold DAYS; omega
+
+theorem fromTimestamp_date (n : Nat) (h : n < 4102444800) : fromTimestamp (n : Int) = .ok (dateOfSeconds n) := by
+  rw [fromTimestamp_eq n (in_range n h)]
+  rfl
+
+theorem intDivF_1000 (x : Nat) (hx : x < 1000000000) : (intDivF (x : Int) 1000).toNat = x / 1000 := by
+  have hx53 : x < 2 ^ 53 := by rw [show (2 : Nat) ^ 53 = 9007199254740992 by norm_num]; omega
+  rw [intDivF_nat x 1000 hx53 (by norm_num)]
+  exact Int.toNat_natCast _
+
+theorem timefromptpParts_eq (T x L : Nat) (hT : T < 4102444800) (hL : L ≤ T) (hx : x < 1000000000) :
+    timefromptpParts T x (L : Int) = .ok (ptOfDate (dateOfSeconds (T - L)) (x / 1000) (x % 1000) (.int L)) := by
+  have hn : T - L < 4102444800 := by omega
+  have hsub : ((T : Int) - (L : Int)) = ((T - L : Nat) : Int) := by omega
+  have hle : ¬ ((L : Int) ≤ -1) := by omega
+  have hu2 : ¬ (1000000 ≤ x / 1000) := by omega
+  unfold timefromptpParts
+  rw [fromTimestamp_date T hT]
+  unfold tfpOffset
+  dsimp only
+  rw [if_neg hle, hsub, fromTimestamp_date (T - L) hn]
+  unfold tfpFinish
+  dsimp only
+  rw [intDivF_1000 x hx, if_neg hu2]
+
+theorem word_hi (T x : Nat) (hx : x < 1000000000) : (T * 4294967296 + x) >>> 32 = T := by
+  rw [Nat.shiftRight_eq_div_pow, show (2 : Nat) ^ 32 = 4294967296 by norm_num]; omega
+
+theorem word_lo (T x : Nat) (hx : x < 1000000000) : (T * 4294967296 + x) &&& 0xffffffff = x := by
+  have hm := Nat.and_two_pow_sub_one_eq_mod (T * 4294967296 + x) 32
+  rw [show (2 : Nat) ^ 32 - 1 = 0xffffffff by norm_num, show (2 : Nat) ^ 32 = 4294967296 by norm_num] at hm
+  rw [hm]; omega
+
+/-- the seconds since the epoch of the date `fromTimestamp n` returns are `n` again -/
+theorem ptOfDate_epoch (n us ns : Nat) (l : Leap) (h : n < 4102444800) :
+    (ptOfDate (dateOfSeconds n) us ns l).epochSeconds = (n : Int) := by
+  have hf := (day_facts n (in_range n h)).1
+  have h1 := (day_facts n (in_range n h)).2.2.2.2.2.2.2.1
+  simp only [ptOfDate, dateOfSeconds, PT.epochSeconds, toTimestamp, hf]
+  clear hf
+  generalize daysFromCivil (civilFromDays (n / 86400 + EPOCH)).1 1 1 = z at h1
+  unfold EPOCH at *
+  omega
+
+end
 
 end Acra.Lemmas.ExtraTime
